@@ -108,7 +108,6 @@ func (x *X) schematicFor(fn *ssa.Function) *Contract {
 	}
 	if recv != "" {
 		add("ensures", "E3", []string{"C08"}, "!old("+recv+".verbose) ==> !errIs(r1, ErrVerbose)")
-		add("ensures", "E4-id", []string{"C09", "C16"}, recv+".lastGeneratedObjectID >= old("+recv+".lastGeneratedObjectID)")
 		c.Modifies = append(c.Modifies, recv+".lastGeneratedObjectID")
 	}
 	if found != "" {
@@ -221,7 +220,8 @@ func (x *X) localResolver(fr *Frame, pos token.Pos, extra map[string]types.Type)
 				}
 			}
 		}
-		for name, v := range found {
+		for _, name := range sortedKeys(found) {
+			v := found[name]
 			if _, ok := vars[name]; ok {
 				continue
 			}
@@ -451,7 +451,8 @@ func (x *X) havocLoop(fr *Frame, li *loopInfo, head, pre *State) {
 			}
 		}
 		// trace cells of callees first called inside the loop must exist before the havoc
-		for cn, f := range eff.calleeFns {
+		for _, cn := range sortedKeys(eff.calleeFns) {
+			f := eff.calleeFns[cn]
 			if x.db.byFn[f] == nil && x.schematicFor(f) == nil {
 				continue
 			}
@@ -465,7 +466,7 @@ func (x *X) havocLoop(fr *Frame, li *loopInfo, head, pre *State) {
 				x.callTraceKey(cn, "first", fmt.Sprint(i), x.enc.sortOf(rt), rt)
 			}
 		}
-		for k := range x.keys {
+		for _, k := range sortedKeys(x.keys) {
 			if !strings.HasPrefix(k, "calls:") {
 				continue
 			}
@@ -505,7 +506,7 @@ func (x *X) havocLoop(fr *Frame, li *loopInfo, head, pre *State) {
 	}
 	// heap effects
 	for _, h := range eff.heap {
-		x.havocHeapEffect(fr, head, pre, h)
+		x.havocHeapEffect(fr, li, head, pre, h)
 	}
 	// refresh well-formedness of havoced locals
 	for _, a := range eff.cells {
@@ -535,7 +536,10 @@ func (x *X) havocLoop(fr *Frame, li *loopInfo, head, pre *State) {
 }
 
 func (x *X) registerLoopDeferGhosts(fr *Frame, li *loopInfo) {
-	for b := range li.body {
+	for _, b := range fr.fn.Blocks {
+		if !li.body[b] {
+			continue
+		}
 		for _, in := range b.Instrs {
 			d, ok := in.(*ssa.Defer)
 			if !ok {
@@ -704,7 +708,11 @@ func verifyFunction(prog *ssa.Program, db *ContractDB, fn *ssa.Function, c *Cont
 	}
 	rets, out := x.run(fr, st)
 	// reachability of the exit (guards against contradictory callee contracts)
-	x.vc.oblige(&Obligation{Name: name + "/cover:exit", Kind: "cover", Func: name, Goal: out.reach, ExpectSat: true, Props: x.props, Text: "some return is reachable"})
+	if !bv {
+		// (in bit-vector mode the solvers do not produce FP+BV+array models within the
+		// time limit; those functions keep the cover of their precondition only)
+		x.vc.oblige(&Obligation{Name: name + "/cover:exit", Kind: "cover", Func: name, Goal: out.reach, ExpectSat: true, Props: x.props, Text: "some return is reachable"})
+	}
 	// postconditions
 	evars := x.entryVars(fr)
 	pvars := x.entryVars(fr)
@@ -886,6 +894,7 @@ func (x *X) defaultRequires(fn *ssa.Function) *Contract {
 	for _, p := range fn.Params {
 		if p.Type().String() == "*github.com/theory/sqljson/path/exec.Executor" && p.Name() != "" {
 			c.Requires = append(c.Requires, &Clause{Kind: "requires", Label: "exec-path", Text: p.Name() + ".path != nil", Line: "default:execpath:" + funcName(fn)})
+			c.Requires = append(c.Requires, &Clause{Kind: "requires", Label: "exec-base-addr", Text: p.Name() + ".baseObject.addr <= 9223372036854775807", Line: "default:execbase:" + funcName(fn)})
 		}
 	}
 	return c
